@@ -328,7 +328,7 @@ def run(ctx):
     th.start()
     try:
         gen = Sub(ctx, "gen")
-        scen1 = tc.simulate(gen, "Datapath_mc", "Datapath_gen.cfg", num=200 if q else 2000, depth=6, timeout=900)
+        scen1 = tc.simulate(gen, "Datapath_mc", "Datapath_gen.cfg", num=150 if q else 2000, depth=6, timeout=900)
         scen2 = tc.simulate(gen, "Datapath_mc", "Datapath_gen2.cfg", num=40 if q else 320, depth=12, timeout=900)
         # address re-use after the fallback DEL: two veth pods, teardowns mostly generic, so most scenarios re-use an address
         scen3 = tc.simulate(gen, "Datapath_mc", "Datapath_gen3.cfg", num=16 if q else 120, depth=10, timeout=900)
@@ -338,7 +338,7 @@ def run(ctx):
             for sc in OBSERVE_SCEN:
                 fh.write(json.dumps(sc) + "\n")
         bins = go_build_tests(ctx, [PKG])
-        l1 = run_harness(ctx, bins[PKG], "TestVerifDatapathL1", scen1, 40 if q else 400, 1, False)
+        l1 = run_harness(ctx, bins[PKG], "TestVerifDatapathL1", scen1, 30 if q else 400, 1, False)
         l2 = run_harness(ctx, bins[PKG], "TestVerifDatapathL2", scen2, 8 if q else 80, 4 if q else 12, True,
                          extra_env={} if q else {"VERIF_RGET": "1"})
     finally:
